@@ -784,7 +784,7 @@ func checkC09(e *env) {
 	r := e.res
 	r.Rule = "valid polygons inside synthetic grids (zero, negative and positive origins) and a NetherlandsRDNewQuad window at the extent's corner, with one vertex moved outside the half-open extent, or (a quarter of the cases) the whole polygon translated beyond a side or corner, by " +
 		"1 unit (1e-10), res-1, res, res+1 units and random distances, on each side and corner (left/bottom: just below min; right/top: exactly max and beyond), both values of ignore-outside-grid; " +
-		"expected: panic with OutsideGridError by default, empty result with the flag; snap-outside-extent: on every accepted built-in set (ids 0, middle, deepest <= level 32) a vertex on and a hair beyond each border of the set's own bounding box, and far away (9.3e8, 1e12, +-Inf);  addr: InsertPoint on grids with various origins against the model's floor-division address. " +
+		"expected: panic with OutsideGridError by default, empty result with the flag; snap-outside-extent: on every accepted built-in set and on NetherlandsRDNewQuad / WebMercatorQuad moved by a quarter of their width under the same id (ids 0, middle, deepest <= level 32) a vertex on and a hair beyond each border of the set's own bounding box, and far away (9.3e8, 1e12, +-Inf);  addr: InsertPoint on grids with various origins against the model's floor-division address. " +
 		"Non-trivial = the vertex is less than one pixel outside, or exactly on the right/top border; distinct by op text."
 	initWindows()
 	type og struct {
@@ -920,7 +920,15 @@ func checkC09(e *env) {
 	// the extent is the tile matrix set's own (its bounding box), not the integer grid the index derives from it: on every accepted built-in
 	// set a vertex on the (exclusive) right/top border, a hair (1e-9, i.e. ten integer units, or four ulp) and a millimetre beyond each border, and far away (beyond what fits an int64
 	// of 1e-10 units, and infinite) must be rejected — both values of the flag
-	for _, name := range acceptedBuiltins() {
+	// … and then the same sets moved by a quarter of their width (same id, same sizes, another origin), as a caller may build them: what an
+	// earlier set left behind must not decide where this one ends
+	names := acceptedBuiltins()
+	for _, b := range []string{"NetherlandsRDNewQuad", "WebMercatorQuad"} {
+		if t, err := loadSet(b + "+moved"); err == nil && pointindex.IsQuadTree(t) == nil {
+			names = append(names, b+"+moved")
+		}
+	}
+	for _, name := range names {
 		gs := newReal(name, 0, false)
 		gs.levelDiff = uint(math.Log2(float64(gs.tms.TileMatrices[0].TileWidth))) + 4
 		top := 0
